@@ -62,8 +62,9 @@ pub(super) fn block_string_value(raw: &str) -> String {
         .skip(first_contentful_line)
         // Remove the common indent, but not on the first line
         .map(|(i, line)| {
-            if i != 0 && line.len() >= common_indent {
-                &line[common_indent..]
+            if i != 0 {
+                // a whitespace-only line can be shorter than the common indent
+                &line[common_indent.min(line.len())..]
             } else {
                 line
             }
